@@ -22,6 +22,7 @@ class C12(ProgramProperty):
 
     def _mapping(self, rng, keys_pool, us, allow_transitive):
         n = rng.choice([1, 1, 2, 3])
+        keys_pool = list(dict.fromkeys(keys_pool))    # a mapping is a dict: keys are distinct
         keys = rng.sample(keys_pool, min(n, len(keys_pool)))
         vals = []
         for k in keys:
